@@ -7,7 +7,6 @@ import (
 	"context"
 	"errors"
 	"fmt"
-	"strings"
 
 	"github.com/plgd-dev/go-coap/v3/message"
 	"github.com/plgd-dev/go-coap/v3/message/pool"
@@ -309,5 +308,3 @@ func checkUint(v uint32, bufLen int, report func(sig, what string)) (evals int64
 	}
 	return evals
 }
-
-var _ = strings.Repeat
